@@ -1,9 +1,191 @@
+import ScenicModel.Gen.RegionOps
 import Driver.Util
-/-! line protocol for the C16 model (stub: replaced when the property's model is built) -/
+/-!
+Line protocol for the C16 model (region algebra + double dispatch).  The dispatch table and the
+flags are the ones regenerated from /repo (`Gen/RegionOps.lean`).
+
+Regions are written in prefix form with rationals `n/d`:
+  all | empty | planar z <shape> | disc z cx cy r | foot <shape> | line n x y … | path n x y z … |
+  pts n x y z … | vol <box> | surf <box> | lzy <reg> | inter <reg> <reg> | union … | diff …
+  <shape> = poly n x y … | disc cx cy r         <box> = c(3) h(3) u(3) v(3) w(3)
+-/
 namespace Driver.C16
-open Driver
+open Driver Scenic.Region
+
+def T := Scenic.Gen.RegionOps.table
+def F := Scenic.Gen.RegionOps.flags
+
+abbrev P (α : Type) := List String → Option (α × List String)
+
+def pRat : P Rat
+  | t :: rest => (parseRat t).map (·, rest)
+  | [] => none
+
+def pNat : P Nat
+  | t :: rest => t.toNat?.map (·, rest)
+  | [] => none
+
+def pV2 : P V2 := fun ts => do
+  let (x, ts) ← pRat ts; let (y, ts) ← pRat ts; pure (⟨x, y⟩, ts)
+
+def pPt : P Pt := fun ts => do
+  let (x, ts) ← pRat ts; let (y, ts) ← pRat ts; let (z, ts) ← pRat ts; pure (⟨x, y, z⟩, ts)
+
+def pMany {α} (p : P α) : Nat → P (List α)
+  | 0, ts => some ([], ts)
+  | n + 1, ts => do
+    let (a, ts) ← p ts; let (as, ts) ← pMany p n ts; pure (a :: as, ts)
+
+def pList {α} (p : P α) : P (List α) := fun ts => do
+  let (n, ts) ← pNat ts; pMany p n ts
+
+def pShape : P Shape2
+  | "poly" :: ts => do let (vs, ts) ← pList pV2 ts; pure (.poly vs, ts)
+  | "disc" :: ts => do let (c, ts) ← pV2 ts; let (r, ts) ← pRat ts; pure (.disc c r, ts)
+  | _ => none
+
+def pBox : P Box := fun ts => do
+  let (c, ts) ← pPt ts; let (h, ts) ← pPt ts; let (u, ts) ← pPt ts; let (v, ts) ← pPt ts; let (w, ts) ← pPt ts
+  pure (⟨c, h, u, v, w⟩, ts)
+
+/-- fuelled recursive descent (regions nest at most a few levels) -/
+def pReg : Nat → P Reg
+  | 0, _ => none
+  | n + 1, ts => match ts with
+    | "all" :: ts => some (.all, ts)
+    | "empty" :: ts => some (.empty, ts)
+    | "planar" :: ts => do let (z, ts) ← pRat ts; let (s, ts) ← pShape ts; pure (.planar z s, ts)
+    | "disc" :: ts => do let (z, ts) ← pRat ts; let (c, ts) ← pV2 ts; let (r, ts) ← pRat ts; pure (.disc z c r, ts)
+    | "foot" :: ts => do let (s, ts) ← pShape ts; pure (.foot s, ts)
+    | "line" :: ts => do let (c, ts) ← pList pV2 ts; pure (.line c, ts)
+    | "path" :: ts => do let (c, ts) ← pList pPt ts; pure (.path c, ts)
+    | "pts" :: ts => do let (c, ts) ← pList pPt ts; pure (.pts c, ts)
+    | "vol" :: ts => do let (b, ts) ← pBox ts; pure (.vol b, ts)
+    | "surf" :: ts => do let (b, ts) ← pBox ts; pure (.surf b, ts)
+    | "lzy" :: ts => do let (r, ts) ← pReg n ts; pure (.lzy r, ts)
+    | "inter" :: ts => do let (a, ts) ← pReg n ts; let (b, ts) ← pReg n ts; pure (.inter a b, ts)
+    | "union" :: ts => do let (a, ts) ← pReg n ts; let (b, ts) ← pReg n ts; pure (.union a b, ts)
+    | "diff" :: ts => do let (a, ts) ← pReg n ts; let (b, ts) ← pReg n ts; pure (.diff a b, ts)
+    | _ => none
+
+def pOp : P Op
+  | "intersect" :: ts => some (.intersect, ts)
+  | "union" :: ts => some (.union, ts)
+  | "difference" :: ts => some (.difference, ts)
+  | "intersects" :: ts => some (.intersects, ts)
+  | _ => none
+
+def pKind : P Kind
+  | t :: ts => (Kind.list.find? (fun k => (repr k).pretty == "Scenic.Region.Kind." ++ t)).map (·, ts)
+  | [] => none
+
+def pBool : P Bool
+  | "1" :: ts => some (true, ts)
+  | "0" :: ts => some (false, ts)
+  | _ => none
+
+def bits (l : List Bool) : String := if l.isEmpty then "-" else String.ofList (l.map fun b => if b then '1' else '0')
+
+def strip (s : String) : String :=
+  (((((s.replace "Scenic.Region." "").replace "Op." "").replace "Kind." "").replace "Route." "").replace "Handler." "").replace "\n" " "
+
+def showRoute (r : Route) : String :=
+  String.intercalate "" ((strip (repr r).pretty).splitOn " " |>.filter (· ≠ "") |>.intersperse "_")
+
+def showPt (p : Pt) : String := s!"{showRat p.x} {showRat p.y} {showRat p.z}"
+
+/-! ### exact margin from the (relative) boundary of a region -/
+
+def nearShape (m : Rat) : Shape2 → V2 → Bool
+  | .poly vs, q => (ringEdges vs).any (fun e => decide (segDistSq2 q e.1 e.2 ≤ sq m))
+  | .disc c r, q => decide (sq (maxR 0 (r - m)) ≤ V2.dsq q c) && decide (V2.dsq q c ≤ sq (r + m))
+
+def nearBox (m : Rat) (b : Box) (p : Pt) : Bool :=
+  if b.mem p then decide (b.depth p ≤ m) else decide (b.distSq p ≤ sq m)
+
+/-- within `m` of the boundary of a primitive (for curves and point sets: within `m` but not on it,
+    or within `m` of a vertex); planar regions: also a height within `m` of, but different from, `z` -/
+def near (m : Rat) : Reg → Pt → Bool
+  | .all, _ => false
+  | .empty, _ => false
+  | .planar z s, p => nearShape m s p.xy || (decide (p.z ≠ z) && decide (absR (p.z - z) ≤ m))
+  | .disc z c r, p => nearShape m (.disc c r) p.xy || (decide (p.z ≠ z) && decide (absR (p.z - z) ≤ m))
+  | .foot s, p => nearShape m s p.xy
+  | .line c, p =>
+      (decide (minOver (fun e => segDistSq2 p.xy e.1 e.2) (chainSegs c) + sq p.z ≤ sq m) && !(Reg.line c).mem p)
+      || c.any (fun v => decide (V2.dsq p.xy v + sq p.z ≤ sq m))
+  | .path c, p =>
+      (decide (minOver (fun e => segDistSq3 p e.1 e.2) (chainSegs3 c) ≤ sq m) && !(Reg.path c).mem p)
+      || c.any (fun v => decide (Pt.dsq p v ≤ sq m))
+  | .pts ps, p => ps.any (fun v => decide (Pt.dsq p v ≤ sq m) && decide (p ≠ v))
+  | .vol b, p => nearBox m b p
+  | .surf b, p => nearBox m b p && !b.onSurface p
+  | .lzy r, p => near m r p
+  | .inter a b, p => near m a p || near m b p
+  | .union a b, p => near m a p || near m b p
+  | .diff a b, p => near m a p || near m b p
+
+/-! ### oracles instantiated on a finite candidate list (three-valued use in the harness) -/
+
+def candOracle (cands : List Pt) : Oracle :=
+  { sub2 := fun a b => cands.all (fun p => !b p.xy || a p.xy),
+    ne2 := fun f => cands.any (fun p => f p.xy),
+    ne3 := fun f => cands.any f }
+
+def showDist : DistOut → String
+  | .val d => s!"{showRat d.gapSq},{showRat d.r},{showRat d.dzSq}"
+  | .inf => "inf"
+  | .unsupported => "unsupported"
+
+def showTri : Tri → String
+  | .yes => "yes" | .no => "no" | .undecided => "undecided"
+
+def resZ : Res → String
+  | .planar z _ => showRat z
+  | .same r => match r.z? with | some z => showRat z | none => "-"
+  | _ => "-"
 
 def handle : List String → String
+  | "mem" :: ts => match (do let (r, ts) ← pReg 8 ts; let (ps, ts) ← pList pPt ts; pure (r, ps, ts)) with
+    | some (r, ps, []) =>
+      s!"ok {bits (ps.map r.mem)} {bits (ps.map (containsPoint F r))} {bits (ps.map (memCode F r))}"
+    | _ => "bad-op"
+  | "near" :: ts => match (do let (m, ts) ← pRat ts; let (r, ts) ← pReg 8 ts; let (ps, ts) ← pList pPt ts; pure (m, r, ps, ts)) with
+    | some (m, r, ps, []) => s!"ok {bits (ps.map (near m r))}"
+    | _ => "bad-op"
+  | "op" :: ts => match (do let (op, ts) ← pOp ts; let (a, ts) ← pReg 8 ts; let (b, ts) ← pReg 8 ts
+                            let (ps, ts) ← pList pPt ts; pure (op, a, b, ps, ts)) with
+    | some (op, a, b, ps, []) =>
+      let rt := routeOf T fuelBound op (ctlOf a b)
+      match exec (candOracle ps) F op rt a b with
+      | .res r => s!"ok {showRoute rt} {strip r.tag} {resZ r} {bits (ps.map r.mem)} {bits (ps.map a.mem)} {bits (ps.map b.mem)}"
+      | .bool v => s!"bool {showRoute rt} {if v then 1 else 0}"
+      | .notImpl => s!"notimpl {showRoute rt}"
+      | .crash => s!"crash {showRoute rt}"
+    | _ => "bad-op"
+  | "route" :: ts => match (do let (op, ts) ← pOp ts; let (ka, ts) ← pKind ts; let (kb, ts) ← pKind ts
+                               let (la, ts) ← pBool ts; let (lb, ts) ← pBool ts; let (zne, ts) ← pBool ts
+                               let (ea, ts) ← pBool ts; let (eb, ts) ← pBool ts
+                               pure (op, (⟨ka, kb, la, lb, zne, ea, eb⟩ : Ctl), ts)) with
+    | some (op, c, []) => s!"ok {showRoute (routeOf T fuelBound op c)}"
+    | _ => "bad-op"
+  | "dist" :: ts => match (do let (r, ts) ← pReg 8 ts; let (ps, ts) ← pList pPt ts; pure (r, ps, ts)) with
+    | some (r, ps, []) => "ok " ++ String.intercalate " " (ps.map (fun p => showDist (distanceTo F r p)))
+    | _ => "bad-op"
+  | "aabb" :: ts => match pReg 8 ts with
+    | some (r, []) => (match aabb F r with
+      | some bb => s!"ok {showPt bb.1} {showPt bb.2}"
+      | none => "none")
+    | _ => "bad-op"
+  | "proj" :: ts => match (do let (b, ts) ← pBox ts; let (p, ts) ← pPt ts; let (d, ts) ← pPt ts; pure (b, p, d, ts)) with
+    | some (b, p, d, []) => (match projectVector F b p d with
+      | some q => s!"ok {showPt q}"
+      | none => "none")
+    | _ => "bad-op"
+  | "creg" :: ts => match (do let (a, ts) ← pReg 8 ts; let (b, ts) ← pReg 8 ts; let (sm, ts) ← pBool ts
+                              let (ps, ts) ← pList pPt ts; pure (a, b, sm, ps, ts)) with
+    | some (a, b, sm, ps, []) => s!"ok {showTri (containsRegion F (candOracle ps) a b sm)}"
+    | _ => "bad-op"
   | _ => "bad-op"
 
 end Driver.C16
